@@ -347,6 +347,7 @@ def proj_server(tk, s):
             "nend": tk(s.next_end_service_date, "nend"),
             "start": tk(s.start_date, "srv.start"),
             "bt": tk(s.busy_time, "busy_time"),
+            "btw": tk(getattr(s, "busy_time_before_wrap_up", None), "busy_time_before_wrap_up"),
             "send": tk(s.shift_end, "shift_end")}
 
 
